@@ -27,12 +27,13 @@
       - `Option.Some(e)` (`enum_constructor` + `make_enum`), `Option.None`,
         `accept e` / `reject e` (the operand stays lazy until `make_enum` stores
         it), `e?` (`question_mark`); record literals (`record`) and field access (`access`);
+      - enum constructors `E.V(args…)` (`enum_constructor` + `make_enum`);
       - `match` (`r#match` / `match_case`): guard chains per discriminant with the `_` arms
         woven in, in source order; shared arm blocks.
   * the temporary counter `tmp_idx` (both `tmp()` and `undropped_tmp()` bump it).
 
   Not modelled in this version (`lowerE` returns `none`): script-function
-  calls, `for`, user enum constructors, lists, f-strings; a `match` with a pattern naming a
+  calls, `for`, lists, f-strings; a `match` with a pattern naming a
   variant the examinee's type does not have; the `stack_slots` bookkeeping and the `drop` instructions (they
   have no effect on the order of host calls).
 
@@ -259,6 +260,11 @@ def patBinds (p : Pat) (xe : Var) (tagBase : Nat) : List Stm :=
   | .wild => []
   | .variant k bs => bindsCode bs xe (tagBase + k) 0
 
+/-- `make_enum`: the already materialised arguments moved into the variant's fields, in order -/
+def storeFields (to : Var) : Nat → List Var → List Stm
+  | _, [] => []
+  | i, x :: xs => .assignField to i (.move x) :: storeFields to (i + 1) xs
+
 /-- `shortcircuit_binop`: left stored in `tmp`; `switch tmp [(other_if, other)] default cont`;
     in `other` the right operand is evaluated and stored in `tmp`
     (`&&`: the right operand runs when the left is `true`; `||`: when it is `false`). -/
@@ -424,7 +430,23 @@ def lowerE : Expr → Nat → Option (Code × Value × Nat)
     let chains := (if ds.contains 0 then [GChain.mk 0 ch0] else [])
       ++ (if ds.contains 1 then [GChain.mk 1 ch1] else []) ++ (if ds.contains 2 then [GChain.mk 2 ch2] else [])
     pure (ce ++ me ++ [.assign d (.disc xe), .mtch d chains dflt codes], .move out, c4)
+  | .ctor k args, c => do
+    -- `enum_constructor`: every argument lowered and materialised before the next one (fix
+    -- 6df857b); then `make_enum`: result temporary, discriminant, fields
+    let (ca, xs, c) ← lowerCtorArgs args c
+    pure (ca ++ [.setDisc (.t c) (.enm k (List.replicate xs.length 0))] ++ storeFields (.t c) 0 xs, .move (.t c), c + 1)
   | _, _ => none
+
+/-- the arguments of an enum constructor: each lowered, then materialised (`assign_to_var`) -/
+def lowerCtorArgs : Exprs → Nat → Option (Code × List Var × Nat)
+  | .nil, c => some ([], [], c)
+  | .cons e es, c => do
+    let (ce, ve, c) ← lowerE e c
+    let me := atvCode ve c
+    let xe := atvVar ve c
+    let c := atvNext ve c
+    let (cs, xs, c) ← lowerCtorArgs es c
+    pure (ce ++ me ++ cs, xe :: xs, c)
 
 /-- `match_case`: the guard chain of one discriminant — for every arm of the chain, in source
     order: bind the fields; then jump to the arm, or lower and materialise the guard and
